@@ -136,7 +136,7 @@ func originHeader(rng *core.Rand, allowed [][2]string) string {
 	case 14:
 		return sc + "://" + strings.ToUpper(h)
 	case 15:
-		return rng.Pick([]string{"file://", "%zz", "http://user@" + h, "ftp://" + h, "https://example.com"})
+		return rng.Pick([]string{"file://", "%zz", "http://user@" + h, "ftp://" + h, "https://example.com", "http://evil." + h, "http://evil" + h, sc + "://" + h + "x"})
 	case 16:
 		return "other://" + h
 	default:
